@@ -8,7 +8,7 @@ from jax.flatten_util import ravel_pytree
 from ..harness import Check, Enc, Obligation, all_eq, cells, symlike
 
 TECH = "jaxpr of the real NUTSKernel/HMCKernel._tune_slow (and tune via lax.cond) interpreted over z3 reals; oracle = sample (co)variance of the ravel_pytree coordinates; z3/nlsat decides each negated obligation"
-SHAPES = {"a": (2,), "z": (), "m": (2, 1)}
+SHAPES = {"a": (2,), "z": (), "m": (2, 1), "W": (2, 2)}
 
 
 def make(kind, keys, diag):
@@ -124,10 +124,10 @@ def main():
     family = []
     if chk.tier == "quick":
         family = [("nuts", ("a", "z"), True), ("nuts", ("z", "a"), True), ("nuts", ("z", "a"), False), ("hmc", ("z", "a"), True),
-                  ("hmc", ("z", "a"), False), ("hmc", ("z", "m", "a"), True)]
+                  ("hmc", ("z", "a"), False), ("hmc", ("z", "m", "a"), True), ("nuts", ("z", "W"), True), ("hmc", ("W", "a"), False)]
     else:
         for kind in ("nuts", "hmc"):
-            for keys in (("a", "z"), ("z", "a"), ("z", "m", "a"), ("m", "a"), ("z",)):
+            for keys in (("a", "z"), ("z", "a"), ("z", "m", "a"), ("m", "a"), ("z",), ("z", "W"), ("W", "a")):
                 for diag in (True, False):
                     family.append((kind, keys, diag))
     obs = []
@@ -146,7 +146,7 @@ def main():
     chk.run(obs)
     chk.functions += ["liesel.goose.nuts.NUTSKernel._tune_slow / tune", "liesel.goose.hmc.HMCKernel._tune_slow / tune",
                       "liesel.goose.mm.tune_inv_mm_diag", "liesel.goose.mm.tune_inv_mm_full", "liesel.goose.mm._history_to_matrix"]
-    chk.bounds += [f"history of T = {T} recorded rows, all entries symbolic reals", "block shapes: scalar, vector (2,), matrix (2,1); total dimension <= 5",
+    chk.bounds += [f"history of T = {T} recorded rows, all entries symbolic reals", "block shapes: scalar, vector (2,), matrices (2,1) and (2,2); total dimension <= 6",
                    "one slow-adaptation tuning call from an arbitrary old step size / inverse mass matrix (several epochs follow by repetition: the call has no other state)"]
     chk.enumerated += [f"{k}{list(ks)}{'diag' if d else 'dense'}" for k, ks, d in family] + ["nuts/hmc ['z','a'] diag via tune()"]
     chk.assume("blackjax applies the metric to ravel_pytree(position) (its documented coordinate order)", "alignment / (co)variance identities in real arithmetic; float32 only for the positivity obligation (|history| <= 1e15, no NaN)",
